@@ -462,6 +462,12 @@ fn group_case(st: &mut Stats, job: usize, c: &Case, monotone: bool) {
             }
         }
     }
+    if monotone {
+        // x <= y and y <= x for two spellings of one value: order preservation demands identical results. Every element of
+        // more than 19 digits is therefore parsed again with the decimal point after 1, 19 and 38 digits, at its positional
+        // place and at the end (valid spellings only: no leading integer zero, no trailing fraction zero).
+        equal_value_placements(st, c, b32, b64);
+    }
     PREV.with(|p| {
         let mut p = p.borrow_mut();
         let v = DecN::from_parts(c.int, c.frac, c.exp);
@@ -502,6 +508,53 @@ fn group_case(st: &mut Stats, job: usize, c: &Case, monotone: bool) {
     });
 }
 
+fn equal_value_placements(st: &mut Stats, c: &Case, b32: Option<u64>, b64: Option<u64>) {
+    let n = c.int.len() + c.frac.len();
+    if n <= 19 || (c.int.is_empty() && c.frac.first() == Some(&b'0')) {
+        return;
+    }
+    // every element of the structural chains, every third long element of the others (cost)
+    if !c.fam.starts_with("CHAIN-STR") && st.cases % 3 != 0 {
+        return;
+    }
+    let mut joined: Vec<u8> = Vec::with_capacity(n);
+    joined.extend_from_slice(c.int);
+    joined.extend_from_slice(c.frac);
+    let base = c.exp as i64 - c.frac.len() as i64; // value = joined * 10^base
+    let positional = n as i64 + base; // split position at which the exponent argument is 0
+    let mut ps: Vec<usize> = vec![19, 38, if st.cases % 2 == 0 { 1 } else { n }];
+    if positional > 0 && (positional as usize) < n {
+        ps.push(positional as usize);
+    }
+    ps.sort();
+    ps.dedup();
+    for p in ps {
+        if p > n || p == c.int.len() || (p < n && joined[n - 1] == b'0') {
+            continue;
+        }
+        let ex = base + (n - p) as i64;
+        if ex < i32::MIN as i64 || ex > i32::MAX as i64 {
+            continue;
+        }
+        let alt = Case { int: &joined[..p], frac: &joined[p..], exp: ex as i32, fam: c.fam, fmts: c.fmts, expect: None };
+        st.bump("equal_value_placements");
+        for (main, f) in [(b32, F32), (b64, F64)] {
+            let Some(mb) = main else { continue };
+            st.calls += 1;
+            let ab = if f == F32 { bits_or_panic::<f32>(&alt) } else { bits_or_panic::<f64>(&alt) };
+            if ab != mb {
+                let v = DecN::from_parts(alt.int, alt.frac, alt.exp);
+                let want = expected(&v, f);
+                let mut vio = mk_viol(&alt, f, "order-inverted", format!("{:#x} (the same value written {} gave {:#x})", ab, case_sample(c), mb), format!("{:#x}", want));
+                if check(&v, f, ab) {
+                    vio.extra = format!("\"note\":{}", run::jstr("this spelling is correctly rounded; the other spelling of the same value is the wrong one"));
+                }
+                st.violation(vio);
+            }
+        }
+    }
+}
+
 pub fn c09(a: &Args) -> (Stats, String) {
     let mut fams: Fams = Vec::new();
     fams.push(("CHAIN(1) sorted SEAM significands with in-between truncated elements, every q in [-365,330]", fam::chains_w(-365, 330)));
@@ -513,11 +566,17 @@ pub fn c09(a: &Args) -> (Stats, String) {
     fams.push(("CHAIN(3b) f32 rich runs", fam::chains_floats_rich(F32, 4, 1)));
     fams.push(("CHAIN(4) far-digit chains d=0..9 (f64)", fam::chains_far(F64)));
     fams.push(("CHAIN(4) far-digit chains d=0..9 (f32)", fam::chains_far(F32)));
+    if let Some(p) = &a.hard {
+        fams.push(("CHAIN(5) through the structural digit strings (GAPS, LIMB-EDGE, RIPPLE, POW2-POS): D-1 < D-1.5 < D = D < D+far < D+1", crate::str64_chain_jobs(p)));
+    }
     run_groups(fams, true)
 }
 
 pub fn c10(a: &Args) -> (Stats, String) {
-    let fams: Fams = vec![("RESPELL: every split, leading zeros, 0..40 appended zeros of short, SEAM and long bases", fam::respell_family(a.seed, a.thorough))];
+    let mut fams: Fams = vec![("RESPELL: every split, leading zeros, 0..40 appended zeros of short, SEAM and long bases", fam::respell_family(a.seed, a.thorough))];
+    if let Some(p) = &a.hard {
+        fams.push(("RESPELL of the structural digit strings (GAPS, LIMB-EDGE, RIPPLE, POW2-POS) and their upper neighbours: every split, appended zeros", crate::str64_respell_jobs(p)));
+    }
     run_groups(fams, false)
 }
 
